@@ -39,6 +39,9 @@ def bounds(tier):
 
 def units(tier, seed):
     us = [{"name": "etdrk/z_lattice", "kind": "etdrk", "dts": [1.0, 0.01], "cost": 50}]
+    top = 220 if tier == "quick" else 520
+    for lo in range(3, top, 55):
+        us.append({"name": f"discrete/N{lo}", "kind": "discrete", "Ns": list(range(lo, min(lo + 55, top))), "cost": 20})
     for e in catalog.entries():
         for D in e.dims:
             if tier == "quick" and D == 3 and e.name.split("/")[0] not in ("NavierStokesVelocity", "KolmogorovFlowVelocity", "Burgers", "Diffusion"):
@@ -66,13 +69,27 @@ def dec(d):
 
 
 def run_unit(u, rec):
-    task = {k: v for k, v in u.items() if k in ("kind", "dts", "entry", "D", "N", "seed")}
+    task = {k: v for k, v in u.items() if k in ("kind", "dts", "entry", "D", "N", "seed", "Ns")}
     r32 = child(task, False)
     r64 = child(task, True)
     rec.check(r32["default_float"] == "float32" and not r32["x64"], "C19/session/default_is_float32", "the default session is not single precision", got=r32["default_float"])
     rec.check(r64["default_float"] == "float64" and r64["x64"], "C19/session/x64_is_float64", "the x64 session is not double precision", got=r64["default_float"])
     t64 = {json.dumps(it["key"]): it for it in r64["items"]}
     rec.check(len(r32["items"]) == len(r64["items"]) and len(t64) == len(r64["items"]), "C19/session/tables_differ", "the two sessions explored different cases")
+    if u["kind"] == "discrete":
+        for it32 in r32["items"]:
+            it64 = t64.get(json.dumps(it32["key"]))
+            rec.count(states=2, transitions=2, traces=2)
+            if it64 is None:
+                continue
+            for field in ("wavenumbers_int", "wavenumber_sum_abs", "dealias_counts", "low_pass_counts", "oddball_count", "scaling_hist"):
+                rec.check(it32[field] == it64[field], f"C19/discrete_session_dependent/{field}",
+                          "a discrete decision (layout / mask / band / scaling class) differs between the single- and double-precision sessions",
+                          key=it32["key"], float32=it32[field] if field != "low_pass_counts" else None, float64=it64[field] if field != "low_pass_counts" else None)
+            rec.check(it32["wavenumbers_int"] and it64["wavenumbers_int"], "C19/discrete/wavenumbers_not_integers", "wavenumbers are not exact integers", key=it32["key"])
+            rec.outcome("discrete", tuple(it32["key"]), it64["oddball_count"], tuple(it64["low_pass_counts"][:4]))
+        rec.sample({"unit": u["name"], "N": [u["Ns"][0], u["Ns"][-1]], "fields": ["wavenumbers", "dealiasing masks", "low-pass masks", "oddball mask", "scaling classes"]})
+        return
     if u["kind"] == "etdrk":
         Z = dec(r64["z"])
     else:
